@@ -26,19 +26,19 @@ var orderReasons = map[string]struct{ reason, effects string }{
 		"calls=delete"},
 	"builder.findLeader:range(scc)#2": {
 		"for every start vertex the candidate set is intersected with every cycle (deletes only: commutative); the early exits return constants and their condition (empty candidate set / error) is monotone under deletes, so the result is the same for every visiting order",
-		"calls=FindCyclesInSCC,delete,fmt.Errorf writes=mapCycle[k]"},
+		"calls=FindCyclesInSCC,delete,fmt.Errorf"},
 	"builder.ComputeLeftRecursives:range(graph)#1": {
 		"collects the vertex list passed to StronglyConnectedComponents: the resulting partition into SCCs is independent of vertex order (Tarjan); only the order of the returned list varies, and its consumer loop treats every SCC independently (constant flag stores, leader chosen by minimum)",
-		"writes=vertices"},
+		"writes=<[]string>"},
 	"builder.dfs@StronglyConnectedComponents:range(edges[vertex])#1": {
 		"Tarjan's DFS: the set of SCCs does not depend on the order in which successors are visited; only the order of the returned list does (see ComputeLeftRecursives)",
-		"calls=dfs writes=lowlink[vertex],sccs"},
+		"calls=closure writes=<[]map[string]struct{}>,<map[string]int>[<string>]"},
 	"builder.FindCyclesInSCC:range(scc)#1": {
 		"collects vertices missing from the graph for an error message on a path that is infeasible for callers in this repository (scc ⊆ keys(graph)); the list is only formatted",
-		"writes=extravertices"},
+		"writes=<[]string>"},
 	"builder.dfs@FindCyclesInSCC:range(graph[node])#1": {
 		"exhaustive enumeration of simple paths: the set of cycles found is independent of successor order; the consumer (findLeader) intersects over all cycles",
-		"calls=dfs writes=ret"},
+		"calls=closure writes=<[][]string>"},
 }
 
 type rangeSite struct {
@@ -103,31 +103,54 @@ func mapRanges(g *load.G, suffixes []string, skipFile func(string) bool) []range
 	return out
 }
 
-// effectSignature summarises what a loop body can do: callees other than pure builtins, and assignment
-// targets other than variables defined inside the body.
-func effectSignature(body *ast.BlockStmt) string {
+// effectSignature summarises what a loop body can do, independently of how locals are named: callees other than
+// builtins and other than side-effect-free functions of the package (which only build and return a fresh value), and
+// assignment targets whose base is not defined inside the body (a container created in the body is fresh in every
+// iteration). Variables of the enclosing function are rendered by their type, fields and package-level names by name.
+func effectSignature(p *packages.Package, body *ast.BlockStmt) string {
+	info := p.TypesInfo
 	calls, writes := map[string]bool{}, map[string]bool{}
-	local := map[string]bool{}
-	ast.Inspect(body, func(n ast.Node) bool {
-		switch x := n.(type) {
-		case *ast.AssignStmt:
-			if x.Tok == token.DEFINE {
-				for _, l := range x.Lhs {
-					local[nospace(l)] = true
-				}
-			}
-		case *ast.RangeStmt:
-			if x.Tok == token.DEFINE {
-				if x.Key != nil {
-					local[nospace(x.Key)] = true
-				}
-				if x.Value != nil {
-					local[nospace(x.Value)] = true
-				}
+	inBody := func(obj types.Object) bool { return obj != nil && obj.Pos() >= body.Pos() && obj.Pos() < body.End() }
+	baseIdent := func(e ast.Expr) *ast.Ident {
+		for {
+			switch x := e.(type) {
+			case *ast.IndexExpr:
+				e = x.X
+			case *ast.SelectorExpr:
+				e = x.X
+			case *ast.StarExpr:
+				e = x.X
+			case *ast.ParenExpr:
+				e = x.X
+			case *ast.Ident:
+				return x
+			default:
+				return nil
 			}
 		}
-		return true
-	})
+	}
+	// render an expression with function-level variables replaced by their types
+	var render func(e ast.Expr) string
+	render = func(e ast.Expr) string {
+		switch x := e.(type) {
+		case *ast.Ident:
+			if obj := info.ObjectOf(x); obj != nil {
+				if v, ok := obj.(*types.Var); ok && !v.IsField() && obj.Parent() != p.Types.Scope() && obj.Pkg() == p.Types {
+					return "<" + types.TypeString(v.Type(), func(*types.Package) string { return "" }) + ">"
+				}
+			}
+			return x.Name
+		case *ast.IndexExpr:
+			return render(x.X) + "[" + render(x.Index) + "]"
+		case *ast.SelectorExpr:
+			return render(x.X) + "." + x.Sel.Name
+		case *ast.StarExpr:
+			return "*" + render(x.X)
+		case *ast.ParenExpr:
+			return render(x.X)
+		}
+		return nospace(e)
+	}
 	ast.Inspect(body, func(n ast.Node) bool {
 		switch x := n.(type) {
 		case *ast.CallExpr:
@@ -136,17 +159,34 @@ func effectSignature(body *ast.BlockStmt) string {
 			case "":
 				calls["?"] = true
 			default:
+				if id, ok := x.Fun.(*ast.Ident); ok {
+					if fn, ok := info.ObjectOf(id).(*types.Func); ok && fn.Pkg() == p.Types && sideEffectFree(p, fn.Name(), 0) {
+						return true
+					}
+					if obj := info.ObjectOf(id); obj != nil {
+						if _, isVar := obj.(*types.Var); isVar {
+							// call through a function-valued variable (a recursive closure): named by its role
+							cn = "closure"
+						}
+					}
+				}
 				calls[cn] = true
 			}
 		case *ast.AssignStmt:
 			for _, l := range x.Lhs {
-				t := nospace(l)
-				if t != "_" && !local[t] {
-					writes[t] = true
+				if id, ok := l.(*ast.Ident); ok && (id.Name == "_" || inBody(info.ObjectOf(id))) {
+					continue
 				}
+				if b := baseIdent(l); b != nil && inBody(info.ObjectOf(b)) {
+					continue
+				}
+				writes[render(l)] = true
 			}
 		case *ast.IncDecStmt:
-			writes[nospace(x.X)] = true
+			if b := baseIdent(x.X); b != nil && inBody(info.ObjectOf(b)) {
+				return true
+			}
+			writes[render(x.X)] = true
 		}
 		return true
 	})
@@ -507,11 +547,32 @@ func C19(c *Ctx) {
 	sites := mapRanges(g, []string{"", "ast", "builder"}, isGen)
 	r.Analysed["map_ranges_generator"] = len(sites)
 	seen := map[string]bool{}
+	siteKeys := map[string]bool{}
+	for _, s := range sites {
+		siteKeys[s.Key] = true
+	}
+	claimed := map[string]bool{}
 	for _, s := range sites {
 		seen[s.Key] = true
 		construct := "G." + s.Key
-		if rs, ok := orderReasons[s.Key]; ok {
-			sig := effectSignature(s.Stmt.Body)
+		rs, ok := orderReasons[s.Key]
+		if !ok {
+			// the function, its closure variable or the operand was renamed: an entry of the same package that matches no
+			// site under its own key and has exactly this effect signature still describes this loop
+			sig := effectSignature(s.Pkg, s.Stmt.Body)
+			for k, cand := range orderReasons {
+				if !siteKeys[k] && !claimed[k] && strings.HasPrefix(k, s.Pkg.Types.Name()+".") && cand.effects == sig && sig != "" {
+					if class, _ := classifyRange(s.Pkg, s); class == "" {
+						rs, ok = cand, true
+						claimed[k] = true
+						seen[k] = true
+						break
+					}
+				}
+			}
+		}
+		if ok {
+			sig := effectSignature(s.Pkg, s.Stmt.Body)
 			if sig == rs.effects {
 				r.Ok("C19-a", construct, "", g.Where(s.Pos), "tabled: "+rs.reason)
 			} else {
@@ -523,14 +584,19 @@ func C19(c *Ctx) {
 		if class != "" {
 			r.Ok("C19-a", construct, "", g.Where(s.Pos), "class: "+class)
 		} else {
-			r.Bad("C19-a", construct, "", g.Where(s.Pos), "order-sensitive or unclassified map iteration: "+why+"; effects ["+effectSignature(s.Stmt.Body)+"]")
+			r.Bad("C19-a", construct, "", g.Where(s.Pos), "order-sensitive or unclassified map iteration: "+why+"; effects ["+effectSignature(s.Pkg, s.Stmt.Body)+"]")
 		}
 	}
+	var stale []string
 	for k := range orderReasons {
 		if !seen[k] {
-			r.Fatal("order table entry %s matches no map range any more (anchor lost)", k)
+			stale = append(stale, k)
 		}
 	}
+	sort.Strings(stale)
+	// an entry without a site is harmless (the loop is gone, or it was matched by signature and every remaining map
+	// range has a verdict of its own above); it is reported for housekeeping only
+	r.Analysed["order_table_entries_without_site"] = stale
 	r.MinRule("C19-a", 20)
 	// map iterators from the standard library are map ranges in disguise
 	for _, sfx := range []string{"", "ast", "builder"} {
@@ -677,4 +743,93 @@ func C19(c *Ctx) {
 func classifyRangeInfo(info *types.Info, site rangeSite) (string, string) {
 	p := &packages.Package{TypesInfo: info}
 	return classifyRange(p, site)
+}
+
+var sideEffectFreeCache = map[string]bool{}
+
+// sideEffectFree: the package-level function name (no receiver) only reads its arguments and builds its result: every
+// assignment target has a base defined inside the function, and it calls only builtins, sort functions on its own
+// locals, or other side-effect-free functions of the package.
+func sideEffectFree(p *packages.Package, name string, depth int) bool {
+	key := p.PkgPath + "." + name
+	if v, ok := sideEffectFreeCache[key]; ok {
+		return v
+	}
+	if depth > 3 {
+		return false
+	}
+	sideEffectFreeCache[key] = false // recursion is not accepted
+	var fd *ast.FuncDecl
+	for _, d := range load.AllFuncDecls(p) {
+		if d.Recv == nil && d.Name.Name == name && d.Body != nil {
+			fd = d
+		}
+	}
+	if fd == nil {
+		return false
+	}
+	info := p.TypesInfo
+	inFn := func(obj types.Object) bool {
+		if obj == nil || !(obj.Pos() >= fd.Body.Pos() && obj.Pos() < fd.Body.End()) {
+			return false
+		}
+		return true
+	}
+	ok := true
+	ast.Inspect(fd.Body, func(n ast.Node) bool {
+		switch x := n.(type) {
+		case *ast.AssignStmt:
+			for _, l := range x.Lhs {
+				e := l
+				for {
+					switch y := e.(type) {
+					case *ast.IndexExpr:
+						e = y.X
+						continue
+					case *ast.SelectorExpr:
+						e = y.X
+						continue
+					case *ast.StarExpr:
+						e = y.X
+						continue
+					case *ast.ParenExpr:
+						e = y.X
+						continue
+					}
+					break
+				}
+				id, isId := e.(*ast.Ident)
+				if !isId || (id.Name != "_" && !inFn(info.ObjectOf(id))) {
+					ok = false
+				}
+			}
+		case *ast.IncDecStmt:
+			if id, isId := x.X.(*ast.Ident); !isId || !inFn(info.ObjectOf(id)) {
+				ok = false
+			}
+		case *ast.CallExpr:
+			switch cn := callName(x); cn {
+			case "len", "cap", "append", "make", "min", "max", "string", "new", "copy":
+			case "sort.Strings", "sort.Ints", "slices.Sort":
+				if id, isId := x.Args[0].(*ast.Ident); !isId || !inFn(info.ObjectOf(id)) {
+					ok = false
+				}
+			default:
+				if id, isId := x.Fun.(*ast.Ident); isId {
+					if fn, isFn := info.ObjectOf(id).(*types.Func); isFn && fn.Pkg() == p.Types && sideEffectFree(p, fn.Name(), depth+1) {
+						return true
+					}
+					if _, isType := info.ObjectOf(id).(*types.TypeName); isType {
+						return true // conversion
+					}
+				}
+				ok = false
+			}
+		case *ast.GoStmt, *ast.DeferStmt, *ast.SendStmt:
+			ok = false
+		}
+		return true
+	})
+	sideEffectFreeCache[key] = ok
+	return ok
 }
